@@ -19,6 +19,7 @@ def run(ctx):
                       "self.readonly holds, nor where the parameter is constant and the instance is initialized; on that arm the only "
                       "non-raising continuation is the identity case", floor=5)
     ctx.rule("R14.b", "edit_constant: every constant flag cleared before the yield is set again in the finally, on the class Parameter and on the instance Parameter", floor=2)
+    ctx.rule("R14.d", "at construction every constant parameter (other than name) is referenced on the instance, so that a later class-level set cannot rebind what an existing instance holds", floor=1)
     ctx.rule("R14.c", "Parameterized.name is declared constant; Parameter.__init__ sets constant whenever readonly is true", floor=2)
     ctx.not_decided += ["histories involving per-instance Parameter copies created earlier", "as_uninitialized (deliberately not armed, see C05 exclusions)"]
 
@@ -34,7 +35,12 @@ def run(ctx):
         guarded_t = has(conds, GUARD, True) or has(conds, "self.constant", True)
         guarded_f = has(conds, GUARD, False) or (has(conds, "self.constant", False) and has(conds, "self.readonly", False))
         if not (guarded_t or guarded_f):
-            ctx.fail("R14.a", f, s, "the store `%s` is not control-dependent on the constant/readonly test: it happens whatever the flags say" % s.text())
+            partial = has(conds, "self.constant", False) and not has(conds, "self.readonly", False)
+            ctx.fail("R14.a", f, s, "the store `%s` %s" % (s.text(), (
+                "is reachable when self.constant is false without self.readonly having been tested: a read-only parameter whose constant flag is "
+                "temporarily cleared (edit_constant) can be assigned") if partial else
+                "is not control-dependent on the constant/readonly test: it happens whatever the flags say"),
+                input="readonly parameter assigned inside `with edit_constant(obj)`")
             continue
         if has(conds, "self.readonly", True):
             ctx.fail("R14.a", f, s, "the store `%s` is reachable on a path where self.readonly holds" % s.text())
@@ -138,3 +144,20 @@ def run(ctx):
             ctx.fail("R14.c", init, n, "`%s` can run when readonly is true: a read-only parameter is not constant" % n.text())
     if good:
         ctx.ok("R14.c", init, cstores[0], "constant is forced to True whenever readonly is True")
+
+    # ---------------------------------------------------------------- R14.d
+    sp = ctx.repo.func("param.parameterized.Parameters._setup_params")
+    spc = ctx.facts.cfg(sp)
+    fills = [n for n in spc.live_nodes() if n.kind == "stmt" and isinstance(n.ast, ast.Assign) and isinstance(n.ast.targets[0], ast.Subscript)
+             and isinstance(n.ast.targets[0].value, ast.Name) and has(spc.conditions(n), "p.constant", True)]
+    if not fills:
+        ctx.fail("R14.d", sp, sp.node, "_setup_params no longer collects the constant parameters to reference them on the new instance", key=sp.qualname + "::no-constant-refs")
+    for n in fills:
+        extra = [norm(e) for e, t in spc.conditions(n) if not isinstance(e, ast.BoolOp)
+                 and norm(e) not in ("p.instantiate", "p.constant", "pname != 'name'", "pname == 'name'")]
+        if extra:
+            ctx.fail("R14.d", sp, n, "constant parameters are referenced on the instance only when %s: the others read through to the class default, so `Cls.x = obj` "
+                                     "rebinds the value held by existing instances" % " and ".join(extra), key=sp.qualname + "::narrowed-constant-refs",
+                     input="constant=True, default=None; a = Cls(); Cls.x = obj -> a.x is obj")
+        else:
+            ctx.ok("R14.d", sp, n, "every constant parameter other than name is selected")
